@@ -8,7 +8,7 @@ import z3
 from .engine import (Interp, Ctx, Agg, Cell, Ref, Str, EnvFn, explore, run_single, Unsupported, Panic, Deadlock, Infeasible,
                      is_conc, is_z3, simp, b_and, b_or, b_not, deref_all, str_eq, term_eq)
 from . import wrap
-from .vc_wrap import install_cache_hook, cache_parts, arg_tuple, tuple_eq, render_key
+from .vc_wrap import install_cache_hook, cache_parts, arg_tuple, tuple_eq, render_key, subject_args
 
 GROUP = ['g_tag1', 'g_tag12', 'g_ev1', 'g_ev_t1', 'a_dep_tag2', 'a_tag1_ev1', 'g_named', 'a_named', 'g_nometa', 'a_nometa', 'g_named_nometa']
 NAMES = ['t1', 't2', 't3', 'e1', 'g_tag1', 'custom_g', 'custom_a', 'g_named', 'other_name', 'g_nometa', 'a_dep_tag2', 'nothing_declares_this']
@@ -82,16 +82,16 @@ def run(P, item):
         hooked = I.call_fn
         counts = {n: (0 if n in unused else nfill) for n in subj_names}
         cur = {'name': None}
-        args = {}
+        args = {}; calls = {}
         for name, k in counts.items():
             S = subjs[name]; arity = len(S.rec['args']); tl = []
             for i in range(k):
-                xs = arg_tuple(ctx, f'{name}_{i}', arity)
+                cargs, xs = subject_args(ctx, S.rec, f'{name}_{i}')
                 for prev in tl: ctx.add(b_not(tuple_eq(xs, prev)))
                 n0 = len(log)
-                wrap.call_subject(I, ctx, S, xs, 0)
+                wrap.call_subject(I, ctx, S, cargs, 0)
                 for e in log[n0:]: e['subject'] = name
-                tl.append(xs)
+                tl.append(xs); calls.setdefault(name, []).append(cargs)
             args[name] = tl
         used = [n for n in subj_names if counts[n] > 0]
         pre = {}
@@ -125,7 +125,7 @@ def run(P, item):
             fo = {}
             for n in used:
                 ne = len(ctx.events)
-                wrap.call_subject(I, ctx, subjs[n], args[n][0], 0)
+                wrap.call_subject(I, ctx, subjs[n], calls[n][0], 0)
                 fo[n] = len([e for e in ctx.events[ne:] if e[0] == 'exec'])
             return fo
         ret = request()
